@@ -159,6 +159,13 @@ func run(out *Out, r *Rand, tier string, replay []string) {
 	if replay != nil {
 		for _, l := range replay {
 			f := strings.Fields(l)
+			if f[0] == "conc" {
+				var k, dc, pc, fu int
+				fmt.Sscanf(f[1], "%d:%d:%d:%d", &k, &dc, &pc, &fu)
+				obs := rd.ConcCase(rd.ParseHeader(f[2:]), k, dc, pc, fu)
+				out.Case("conc", l, obs, classOf(obs), true)
+				continue
+			}
 			obs := rd.RunCase(l)
 			out.Case(f[0], l, obs, classOf(obs), true)
 		}
@@ -198,6 +205,26 @@ func run(out *Out, r *Rand, tier string, replay []string) {
 		default:
 			emit("cyclic", rd.GenCyclic(r))
 		}
+	}
+	// concurrent readers: accounting invariants (depends on the schedule, so the observation is
+	// the verdict of the invariant check, which the model side states as "ok" by theorem)
+	nconc := n / 10
+	for i := 0; i < nconc; i++ {
+		segs, ok := rd.GenBuilt(r, 3+r.Intn(4), 20+r.Intn(60))
+		if !ok {
+			continue
+		}
+		if r.Intn(3) == 0 {
+			segs = rd.Mutate(r, segs)
+		}
+		m := &rd.Msg{Segs: segs, T: []uint64{0, 64, 200, 1000, 5000, 1 << 20}[r.Intn(6)], D: 0, Arena: "M"}
+		k := 2 + r.Intn(7)
+		line := fmt.Sprintf("conc %d:%d:%d:%d %s", k, 64, 4, 8, m.Header())
+		obs := rd.ConcCase(m, k, 64, 4, 8)
+		if strings.HasPrefix(obs, "ok") {
+			obs = "ok"
+		}
+		out.Case("conc", line, obs, obs, true)
 	}
 	// degenerate arenas
 	for _, segs := range [][][]byte{{}, {{}}, {{1, 2, 3}}, {rd.Words(0)}, {{}, rd.Words(0)}} {
